@@ -1,3 +1,4 @@
+import BalmProofs.SubNetSpec
 import BalmProofs.AllOpsPres
 import BalmProofs.JudgeExact
 import BalmProofs.WeakSpec
